@@ -147,7 +147,7 @@ def c15_r3(ctx):
         # the test must be on the replica index itself (`global_id != 0`), not on a quantity derived from it
         # (`start != 0` is equivalent only while file_size >= #replicas)
         sides = [a[1], a[2]]
-        return a[0] == 'cmp' and any(_re.match(r'^\*?(metadata\.)?global_id$', x) for x in sides) and any(_re.match(r'^0_\w+$', x) for x in sides) \
+        return a[0] == 'cmp' and any(_re.match(r'^\*?(metadata|arg\d+)\.global_id$|^\*?global_id$', x) for x in sides) and any(_re.match(r'^0_\w+$', x) for x in sides) \
             and a[3] == frozenset(['<', '>'])
     uncond = bool(fru) and all(all(all(bare_gid(a) for a in c) and c for c in d) for d in disc)
     if not ok or not uncond:
